@@ -19,6 +19,7 @@ CONSTANTS
   UseSelf = FALSE
   FundAcct2 = FALSE
   UseBuild = FALSE
+  NChanges = {1}
   UseDiverge = FALSE
   UseAdv = FALSE
   Scen = {1, 2, 5, 7, 8}
